@@ -175,6 +175,14 @@ func (c *Child) Max(name string, n int64) {
 	c.mu.Unlock()
 }
 
+// AddEvaluations: a case that bundles n further executions (crash points of one history, keys of one batch, mutants of one
+// certificate) adds them to the evaluation count, so that "evaluations" is the number of executions actually run.
+func (c *Child) AddEvaluations(n int64) {
+	c.mu.Lock()
+	c.res.Evaluations += n
+	c.mu.Unlock()
+}
+
 // Nontrivial records one distinct non-trivial case (by hash).
 func (c *Child) Nontrivial(h uint64) {
 	c.mu.Lock()
